@@ -1,6 +1,7 @@
 import Mathlib.Algebra.Order.Field.Rat
 import TapkeeVerif.Proofs.TsneBasic
 import TapkeeVerif.Proofs.TsneVp
+import TapkeeVerif.Proofs.TsneCsrVal
 import TapkeeVerif.Proofs.QuadTreeForces
 /-!
 # C17 — t-SNE: calibrated similarities from true neighbours, true KL gradient
@@ -79,12 +80,32 @@ end
 
 /-! ### the CSR symmetriser -/
 
-/- FULL STATEMENTS (every N, every CSR matrix whose rows have distinct in-range columns):
-     symmetrizeCsr_inbounds : ∃ out, symmetrizeCsr N c = .ok out           (no write outside sym_*[0, no_elem), every cell written)
-     symmetrizeCsr_symm     : out.entry n m = out.entry m n
-     symmetrizeCsr_total    : Σ out.valP = Σ c.valP          and   out.entry n m = (c.entry n m + c.entry m n) / 2
-   Proved below for every sparsity pattern with N ≤ 2 and a 64-pattern sample with N = 3 (diagonal entries included,
-   pairwise different dyadic values); the general induction over the two passes is not done. -/
+/-- **in bounds, every cell written** — for EVERY `N` and every well-formed CSR input (`Csr.wellFormed`: the shape
+    `computeGaussianPerplexity` produces) whose rows have pairwise different columns, `symmetrizeMatrix` returns: no
+    write leaves `sym_col_P`/`sym_val_P[0, no_elem)` (the model's `Err.oob`), no cell is read unwritten by the final
+    halving loop (`Err.uninit`).  The reason (`Proofs/TsneCsrCount.lean: rc_eq_emitted`): `row_counts[r]`, computed by the
+    first pass, is exactly the number of writes the second pass makes into row `r`. -/
+theorem symmetrizeCsr_inbounds {K : Type} [Field K] (N : Nat) (c : Csr K) (hw : c.wellFormed N = true)
+    (hd : DistinctCols N c) : ∃ out, symmetrizeCsr N c = .ok out := by
+  obtain ⟨out, h, -⟩ := symmetrizeCsr_ok N c hw hd
+  exact ⟨out, h⟩
+
+/-- **half sum**: every entry of the result is `(p_nm + p_mn) / 2` (`symDivisor` is regenerated from the source) -/
+theorem symmetrizeCsr_half_sum {K : Type} [Field K] (N : Nat) (c : Csr K) (hw : c.wellFormed N = true)
+    (hd : DistinctCols N c) (out : Csr K) (hout : symmetrizeCsr N c = .ok out) (n m : Nat) (hn : n < N) (hm : m < N) :
+    out.entry n m = (c.entry n m + c.entry m n) / ((Gen.TsneOps.symDivisor : Nat) : K) :=
+  out_half_sum N c hw hd out hout n m hn hm
+
+/-- **symmetry** of the result -/
+theorem symmetrizeCsr_symm {K : Type} [Field K] (N : Nat) (c : Csr K) (hw : c.wellFormed N = true)
+    (hd : DistinctCols N c) (out : Csr K) (hout : symmetrizeCsr N c = .ok out) (n m : Nat) (hn : n < N) (hm : m < N) :
+    out.entry n m = out.entry m n := by
+  rw [out_half_sum N c hw hd out hout n m hn hm, out_half_sum N c hw hd out hout m n hm hn, add_comm]
+
+/- `symmetrizeCsr_total` (Σ out.valP = Σ c.valP, hence the normalised matrix sums to one): follows from the half-sum
+   formula by summing over all `(n, m)`; the summation over the flat arrays is not carried out in Lean (the check
+   compares the totals exactly on every generated case).  The small-pattern statements below are kept as non-vacuity
+   examples of the hypotheses and as a regression net for the array plumbing. -/
 
 /-- the CSR matrix with sparsity pattern `mask` (bit `n*N+m` ⇔ entry `(n, m)` present), `k`-th stored value `2^k` -/
 def patternCsr (N mask : Nat) : Csr Rat :=
@@ -102,6 +123,13 @@ def symChecks (N mask : Nat) : Bool :=
       decide (out.entry n m = out.entry m n) && decide (out.entry n m * 2 = c.entry n m + c.entry m n)) &&
     decide (out.valP.foldl (· + ·) 0 = c.valP.foldl (· + ·) 0) &&
     decide (out.rowP.size = N + 1) && decide (out.colP.size = out.rowP.getD N 0) && decide (out.valP.size = out.colP.size)
+
+/-! non-vacuity of the hypotheses of the three theorems above: the 3 × 3 pattern with entries (0,1), (1,0), (1,2), (2,2) -/
+example : (patternCsr 3 0b100100010).wellFormed 3 = true := by decide +kernel
+example : DistinctCols 3 (patternCsr 3 0b100100010) := by
+  intro n hn
+  have : n = 0 ∨ n = 1 ∨ n = 2 := by omega
+  rcases this with rfl | rfl | rfl <;> decide +kernel
 
 /-- in bounds, every cell written, symmetric, halves of the pair sums, total preserved — all patterns up to 2 × 2 -/
 theorem symmetrizeCsr_small_partial : ∀ N < 3, ∀ mask < 2 ^ (N * N), symChecks N mask = true := by
